@@ -1227,3 +1227,97 @@ func ruleBufferReuse(c *Ctx) {
 		c.ok("S-REUSE", "module", "no slice reset with [:0] after being handed out", token.NoPos, "resets judged: "+itoa(judged))
 	}
 }
+
+// ruleMemoScalarKey (M-KEY, scalar clause): a memo (a map or sync.Map that one function reads under a key and fills
+// under the same key when the key is missing) stores values computed from the function's inputs; a scalar parameter
+// (number, flag, string) that the stored value depends on and the key does not mention is an input the memo forgets:
+// the first caller's value of it is served to every later caller (C19-m30: the inline-completion text memoised per
+// payee although it is built for settings.Formatting.IndentSize - a changed indent does not take effect).
+func ruleMemoScalarKey(c *Ctx) {
+	if c.ranOnce("ruleMemoScalarKey") {
+		return
+	}
+	type acc struct {
+		cont, key, val ssa.Value
+		pos            token.Pos
+	}
+	isSyncMap := func(call *ssa.Call, name string) bool {
+		cal := call.Call.StaticCallee()
+		return cal != nil && cal.Name() == name && cal.Signature.Recv() != nil && typeHasSuffix(cal.Signature.Recv().Type(), "sync.Map")
+	}
+	sameC := func(a, b ssa.Value) bool {
+		a, b = stripConv(a), stripConv(b)
+		return a == b || sameLoad(a, b) || sameAddr(a, b, 0)
+	}
+	unbox := func(v ssa.Value) ssa.Value {
+		if mi, ok := v.(*ssa.MakeInterface); ok {
+			return mi.X
+		}
+		return v
+	}
+	n := 0
+	for _, f := range c.P.ModuleFuncs() {
+		var loads, stores []acc
+		for _, b := range f.Blocks {
+			for _, ins := range b.Instrs {
+				switch x := ins.(type) {
+				case *ssa.Lookup:
+					if x.CommaOk {
+						loads = append(loads, acc{cont: x.X, key: x.Index, pos: x.Pos()})
+					}
+				case *ssa.MapUpdate:
+					stores = append(stores, acc{cont: x.Map, key: x.Key, val: x.Value, pos: x.Pos()})
+				case *ssa.Call:
+					if isSyncMap(x, "Load") && len(x.Call.Args) == 2 {
+						loads = append(loads, acc{cont: x.Call.Args[0], key: unbox(x.Call.Args[1]), pos: x.Pos()})
+					}
+					if isSyncMap(x, "Store") && len(x.Call.Args) == 3 {
+						stores = append(stores, acc{cont: x.Call.Args[0], key: unbox(x.Call.Args[1]), val: unbox(x.Call.Args[2]), pos: x.Pos()})
+					}
+				}
+			}
+		}
+		for _, st := range stores {
+			memo := false
+			for _, ld := range loads {
+				if sameC(ld.cont, st.cont) && (stripConv(ld.key) == stripConv(st.key) || sameLoad(ld.key, st.key)) {
+					memo = true
+				}
+			}
+			if !memo {
+				continue
+			}
+			n++
+			keySl := backSlice(st.key)
+			valSl := backSlice(st.val)
+			bad := ""
+			for i, p := range f.Params {
+				if i == 0 && f.Signature.Recv() != nil {
+					continue
+				}
+				bt, ok := p.Type().Underlying().(*types.Basic)
+				if !ok || bt.Info()&(types.IsInteger|types.IsBoolean|types.IsString|types.IsFloat) == 0 {
+					continue
+				}
+				if valSl[p] && !keySl[p] {
+					// an input that is recorded in the entry and compared on every hit is validated, not forgotten
+					compared := false
+					if p.Referrers() != nil {
+						for _, r := range *p.Referrers() {
+							if bo, ok := r.(*ssa.BinOp); ok && (bo.Op == token.EQL || bo.Op == token.NEQ) {
+								compared = true
+							}
+						}
+					}
+					if !compared {
+						bad = p.Name()
+					}
+				}
+			}
+			c.check(bad == "", "M-KEY", funcName(f), "a memo is keyed by every scalar input its values are computed from", st.pos,
+				"no scalar parameter flows into the stored value without being part of the key",
+				"the value stored in this memo is computed from parameter "+bad+", which is not part of the key: whatever the first caller passed is served to every later caller - a setting that is handed in this way (the configured indent) stops taking effect once a value is memoised")
+		}
+	}
+	c.note("M-KEY (scalar clause): %d memos judged", n)
+}
